@@ -199,7 +199,8 @@ def r17_3_4(ctx):
 
 
 def run(ctx):
-    return r17_1(ctx) + r17_2(ctx) + r17_3_4(ctx)
+    from runner import collect
+    return collect(ctx, r17_1, r17_2, r17_3_4)
 
 
 def run_fixture(fctx):
